@@ -215,7 +215,8 @@ var vpC22ContentTypes = []string{
 	"image/png", "video/mp4", "audio/mpeg", "image/jpeg", "TEXT/HTML", "x-custom/thing",
 }
 
-var vpC22Modes = []string{"SetBody", "SetBodyString", "AppendBody", "ctx.Write", "SetBodyRaw", "SetBodyStream(size)", "SetBodyStream(-1)", "SetBodyStreamWriter", "SetBodyStream(size)+Closer"}
+var vpC22Modes = []string{"SetBody", "SetBodyString", "AppendBody", "ctx.Write", "SetBodyRaw", "SetBodyStream(size)", "SetBodyStream(-1)", "SetBodyStreamWriter", "SetBodyStream(size)+Closer",
+	"SetBodyStream(size)+BodyWriterTo(false)", "SetBodyStream(-1)+BodyWriterTo(false)", "SetBodyStream(-1)+BodyWriterTo(true)"}
 
 func vpC22GenBody(t *rapid.T, maxSize int) []byte {
 	var size int
@@ -300,6 +301,26 @@ type vpC22ChunkReadCloser struct {
 	vpC22ChunkReader
 }
 
+// vpC22OptReader implements BodyWriterTo. With allow=false fasthttp has to consume it through Read (which
+// yields the handler's body); its WriteTo - as one promoted from an embedded reader would - emits other bytes.
+// With allow=true WriteTo emits the same body as Read would.
+type vpC22OptReader struct {
+	vpC22ChunkReader
+	allow bool
+}
+
+func (r *vpC22OptReader) SupportsBodyWriteTo() bool { return r.allow }
+
+func (r *vpC22OptReader) WriteTo(w io.Writer) (int64, error) {
+	b := r.b
+	r.b = nil
+	if !r.allow {
+		b = bytes.ToUpper(append([]byte("<<written by WriteTo although SupportsBodyWriteTo is false>>"), b...))
+	}
+	n, err := w.Write(b)
+	return int64(n), err
+}
+
 func (r *vpC22ChunkReadCloser) Close() error { return nil }
 
 func (h *vpC22Handler) serve(ctx *RequestCtx) {
@@ -364,8 +385,14 @@ func (h *vpC22Handler) serve(ctx *RequestCtx) {
 				body = body[n:]
 			}
 		})
-	default:
+	case 8:
 		ctx.SetBodyStream(&vpC22ChunkReadCloser{vpC22ChunkReader{b: body, pieces: h.pieces}}, len(body))
+	case 9:
+		ctx.SetBodyStream(&vpC22OptReader{vpC22ChunkReader: vpC22ChunkReader{b: body, pieces: h.pieces}}, len(body))
+	case 10:
+		ctx.SetBodyStream(&vpC22OptReader{vpC22ChunkReader: vpC22ChunkReader{b: body, pieces: h.pieces}}, -1)
+	default:
+		ctx.SetBodyStream(&vpC22OptReader{vpC22ChunkReader: vpC22ChunkReader{b: body, pieces: h.pieces}, allow: true}, -1)
 	}
 }
 
